@@ -51,6 +51,7 @@ const (
 	KError
 	KTuple
 	KOpaque // a parameter the translation only passes along (Name = its Lean type)
+	KMap    // map[string]bool that is only read: a predicate Bytes → Bool (a missing key reads false)
 )
 
 type Type struct {
@@ -58,6 +59,7 @@ type Type struct {
 	Elem *Type   // KList
 	Name string  // KStruct: Lean structure name
 	Tup  []*Type // KTuple
+	Str  bool    // KBytes: a Go string (same Lean type as []byte; `range` yields runes, not bytes)
 }
 
 var (
@@ -65,6 +67,8 @@ var (
 	TByte  = &Type{K: KByte}
 	TBool  = &Type{K: KBool}
 	TBytes = &Type{K: KBytes}
+	TStr   = &Type{K: KBytes, Str: true}
+	TMap   = &Type{K: KMap}
 	TError = &Type{K: KError}
 )
 
@@ -86,6 +90,8 @@ func (t *Type) Lean() string {
 		return "GoError"
 	case KOpaque:
 		return t.Name
+	case KMap:
+		return "(Bytes → Bool)"
 	case KTuple:
 		parts := make([]string, len(t.Tup))
 		for i, x := range t.Tup {
@@ -134,6 +140,9 @@ type Config struct {
 	// IgnoreAssign: assignments to these targets (printed without blanks, e.g. "ts.line") are dropped —
 	// receiver fields the translated function only writes.
 	IgnoreAssign map[string]bool
+	// RuneFn: the Lean function Bytes → List Int giving the runes `for _, c := range s` yields for a Go
+	// string s (utf8 decoding, RuneError for invalid bytes); range over a string is outside the subset without it.
+	RuneFn string
 }
 
 type Param struct {
@@ -183,6 +192,7 @@ type tr struct {
 	err      error
 	file     *ast.File
 	inGlobal map[string]bool
+	selfRec  bool // the function being translated calls itself: its body is defined by recursion on a fuel argument
 }
 
 // topLevel finds the initializer of a package-level `const`/`var name = <expr>`.
@@ -305,7 +315,7 @@ func (t *tr) typeExpr(e ast.Expr) *Type {
 		case "bool":
 			return TBool
 		case "string":
-			return TBytes
+			return TStr
 		case "error":
 			return TError
 		}
@@ -319,6 +329,12 @@ func (t *tr) typeExpr(e ast.Expr) *Type {
 				return TBytes
 			}
 			return &Type{K: KList, Elem: el}
+		}
+	case *ast.MapType:
+		if k, ok := v.Key.(*ast.Ident); ok && k.Name == "string" {
+			if e, ok := v.Value.(*ast.Ident); ok && e.Name == "bool" {
+				return TMap
+			}
 		}
 	case *ast.StarExpr: // *T for a struct T that does not alias (checked by the caller's choice of functions)
 		return t.typeExpr(v.X)
@@ -457,7 +473,7 @@ func (t *tr) expr(e ast.Expr) val {
 			if err != nil {
 				t.fail(e, "bad string literal")
 			}
-			return val{s: "(" + leanBytes(s) + " : Bytes)", t: TBytes}
+			return val{s: "(" + leanBytes(s) + " : Bytes)", t: TStr}
 		}
 	case *ast.Ident:
 		switch v.Name {
@@ -499,6 +515,12 @@ func (t *tr) expr(e ast.Expr) val {
 		return t.binary(v)
 	case *ast.IndexExpr:
 		x, i := t.expr(v.X), t.expr(v.Index)
+		if x.t != nil && x.t.K == KMap { // read of a map[string]bool: never panics, a missing key reads false
+			if len(x.pre) > 0 || i.t == nil || i.t.K != KBytes {
+				t.fail(e, "unsupported map index")
+			}
+			return val{pre: i.pre, s: paren(x.s) + " " + paren(i.s), t: TBool}
+		}
 		if x.t == nil || (x.t.K != KBytes && x.t.K != KList) {
 			t.fail(e, "index of a non-slice")
 		}
@@ -650,7 +672,7 @@ func (t *tr) binary(v *ast.BinaryExpr) val {
 	switch v.Op {
 	case token.ADD:
 		if x.t.K == KBytes {
-			return val{pre: pre, s: a + " ++ " + b, t: TBytes}
+			return val{pre: pre, s: a + " ++ " + b, t: x.t}
 		}
 		return val{pre: pre, s: a + " + " + b, t: x.t}
 	case token.SUB:
@@ -712,6 +734,9 @@ func (t *tr) call(c *ast.CallExpr) val {
 		pre, vs := args()
 		if vs[0].t == nil || vs[0].t.K != KBytes {
 			t.fail(c, "conversion %s of a non-string", name)
+		}
+		if name == "string" {
+			return val{pre: pre, s: vs[0].s, t: TStr}
 		}
 		return val{pre: pre, s: vs[0].s, t: TBytes}
 	case "byte", "int":
@@ -790,8 +815,26 @@ func (t *tr) call(c *ast.CallExpr) val {
 	if sig, ok := t.funcs[name]; ok {
 		pre, vs := args()
 		var parts []string
+		for _, ep := range t.cfg.ExtraParams {
+			if vi := t.lookup(ep.Lean); vi != nil {
+				parts = append(parts, vi.lean)
+			} else {
+				parts = append(parts, ep.Lean)
+			}
+		}
 		for i, x := range vs {
 			parts = append(parts, paren(t.coerce(x, sig.params[i]).s))
+		}
+		if t.selfRec && t.fn != nil && t.fn.Recv == nil && name == t.fn.Name.Name {
+			// a self-call: one unit of the recursion budget
+			var rt *Type
+			if len(sig.results) == 1 {
+				rt = sig.results[0]
+			} else {
+				rt = &Type{K: KTuple, Tup: sig.results}
+			}
+			tmp := t.tmp()
+			return val{pre: append(pre, fmt.Sprintf("let %s ← %s_rec fuel %s", tmp, sig.lean, strings.Join(parts, " "))), s: tmp, t: rt}
 		}
 		var rt *Type
 		if len(sig.results) == 1 {
@@ -1466,6 +1509,17 @@ func (t *tr) rangeStmt(v *ast.RangeStmt, rest func() string) string {
 	if x.t.K == KList {
 		et = x.t.Elem
 	}
+	if x.t.K == KBytes && x.t.Str {
+		// range over a Go string yields runes (and byte offsets, which are outside the subset)
+		if t.cfg.RuneFn == "" {
+			t.fail(v, "range over a string")
+		}
+		if id, ok := v.Key.(*ast.Ident); v.Key != nil && !(ok && id.Name == "_") {
+			t.fail(v, "range over a string with the byte offset")
+		}
+		x = val{pre: x.pre, s: t.cfg.RuneFn + " " + paren(x.s), t: &Type{K: KList, Elem: TInt}}
+		et = TInt
+	}
 	t.nLoop++
 	nLoop := t.nLoop
 	after := t.auxDef("after", rest)
@@ -1634,7 +1688,25 @@ func (t *tr) function(fd *ast.FuncDecl) string {
 			}
 		}
 	}
-	t.funcs[fd.Name.Name] = sig // (recursion is outside the subset: the body is translated with the signature known, but Lean would reject it)
+	t.funcs[fd.Name.Name] = sig
+	// direct self-recursion (f calls f): the body is defined by structural recursion on a budget
+	t.selfRec = false
+	if fd.Recv == nil {
+		ast.Inspect(fd.Body, func(x ast.Node) bool {
+			if c, ok := x.(*ast.CallExpr); ok && calleeName(c.Fun) == fd.Name.Name {
+				t.selfRec = true
+			}
+			return true
+		})
+	}
+	recFuel := ""
+	if t.selfRec {
+		if f, ok := t.cfg.Fuel[fd.Name.Name+"#rec"]; ok {
+			recFuel = f
+		} else {
+			recFuel = t.fuelFor(0)
+		}
+	}
 	body := t.block(fd.Body.List, func() string {
 		if len(t.named) > 0 {
 			return t.returnStmt(&ast.ReturnStmt{})
@@ -1645,7 +1717,30 @@ func (t *tr) function(fd *ast.FuncDecl) string {
 		t.funcs[fd.Recv.List[0].Names[0].Name+"."+fd.Name.Name] = sig
 	}
 	doc := fmt.Sprintf("/-- translated from `func %s` (%s) -/\n", fd.Name.Name, t.fset.Position(fd.Pos()).Filename)
-	main := fmt.Sprintf("%sdef %s %s : %s := do\n%s\n", doc, t.fnLean, strings.Join(ps, " "), t.retLean(), indent(join(pre, body), 2))
+	var main string
+	if t.selfRec {
+		if len(t.out) > 0 || len(t.named) > 0 {
+			t.fail(fd, "a recursive function with loops, joins or named results is outside the subset")
+		}
+		var tys, pats, args []string
+		for _, p := range ps { // "(name : Type)"
+			p = strings.TrimSuffix(strings.TrimPrefix(p, "("), ")")
+			i := strings.Index(p, " : ")
+			pats = append(pats, p[:i])
+			args = append(args, p[:i])
+			ty := p[i+3:]
+			if strings.Contains(ty, " ") && !(strings.HasPrefix(ty, "(") && matchingParen(ty)) {
+				ty = "(" + ty + ")"
+			}
+			tys = append(tys, ty)
+		}
+		rec := fmt.Sprintf("def %s_rec : Nat → %s → %s\n  | 0%s => none\n  | fuel + 1%s => do\n%s\n", t.fnLean,
+			strings.Join(tys, " → "), t.retLean(), strings.Repeat(", _", len(pats)), prefixEach(pats, ", "), indent(join(pre, body), 4))
+		main = fmt.Sprintf("%s\n%sdef %s %s : %s :=\n  %s_rec (%s) %s\n", rec, doc, t.fnLean, strings.Join(ps, " "), t.retLean(), t.fnLean, recFuel, strings.Join(args, " "))
+		t.selfRec = false
+	} else {
+		main = fmt.Sprintf("%sdef %s %s : %s := do\n%s\n", doc, t.fnLean, strings.Join(ps, " "), t.retLean(), indent(join(pre, body), 2))
+	}
 	var b strings.Builder
 	for _, o := range t.out {
 		b.WriteString(o + "\n")
